@@ -11,7 +11,7 @@ THEOREMS = [(M, "NQ.C09." + n) for n in [
     "step_alloc_ok", "step_use_ok", "step_free_ok",
     "id_reuse_free", "id_reuse_meas", "id_choice",
     "f12_fixed_witness", "f29_fixed_witness", "nv_context_fixed_witness",
-    "f28_counterexample", "f30_counterexample"]]
+    "f28_counterexample", "f30_counterexample", "retry_exhausted_witness"]]
 TRANSLATORS = []
 LEVEL_TEXT = (
     "Lean theorems over histories of ANY length (induction over the operation list): the joint "
@@ -19,7 +19,9 @@ LEVEL_TEXT = (
     "allocation fault and end in exactly the SDK's active id set; ids pairwise distinct, inside the "
     "unit module, within the budget) is preserved by creation, gates, in-place/destructive "
     "measurement, free, EPR keep, sequential keep with post routine, context blocks (both roles, "
-    "any number of pairs, loops proved by induction over the pairs), flush and close on generic and "
+    "any number of pairs, loops proved by induction over the pairs), the min-fidelity retry forms "
+    "of keep (try-until-success over the keep operation with its clean-up, any number of too slow "
+    "attempts), flush and close on generic and "
     "NV configurations with and without the transpiler, incl. the NV relocation with its peephole as "
     "coded; Agree after every flush; id reuse after free/destructive measurement. PARTIAL: the "
     "hypothesis `good` excludes the two open findings F28 (NV multi-pair keep while an id in 1..n-1 "
@@ -47,6 +49,9 @@ TRUSTED = [
     "link-layer schedule: one OK-K response per wait poll, in request order",
 ]
 ASSUMPTIONS = [
+    "a min-fidelity retry loop succeeds within max_tries (if every attempt is too slow the request "
+    "has failed and its handles are void: retry_exhausted_witness)",
+    "link layer: responses in request order; schedules lazy / two per poll / all at request time",
     "host programs apply gates only to live handles (measure/free on a dead handle raise "
     "QubitNotActiveError and change nothing)",
     "loop bodies / post routines consume the pair (gates, then measure or free)",
@@ -70,6 +75,15 @@ CORPUS = [
       {"k": "flush"}]),
     (None, {"nv": True, "transp": False, "maxq": 5},  # NV non-sequential context block (fixed)
      [{"k": "ctx", "recv": True, "n": 2, "sequential": False, "body": {"g": 0, "c": "meas"}},
+      {"k": "flush"}]),
+    (None, {"nv": False, "transp": False, "maxq": 5},  # retry forms, slow first attempts
+     [{"k": "new"}, {"k": "keepr", "recv": True, "n": 2, "fails": 1, "tries": 3},
+      {"k": "seqr", "recv": True, "n": 2, "fails": 2, "tries": 3, "body": {"g": 1, "c": "meas"}},
+      {"k": "seqr", "recv": False, "n": 2, "fails": 1, "tries": 2, "body": {"g": 0, "c": "free"}},
+      {"k": "flush"}, {"k": "close"}]),
+    (None, {"nv": True, "transp": False, "maxq": 5},  # F32 witness (fixed): relocation + retry
+     [{"k": "new"}, {"k": "keepr", "recv": False, "n": 1, "fails": 1, "tries": 2}, {"k": "flush"},
+      {"k": "seqr", "recv": True, "n": 3, "fails": 1, "tries": 2, "body": {"g": 0, "c": "meas"}},
       {"k": "flush"}]),
     ("F28", {"nv": True, "transp": False, "maxq": 5},
      [{"k": "new"}, {"k": "keep", "recv": True, "n": 2}, {"k": "flush"}]),
@@ -113,7 +127,7 @@ def run(ctx):
         kf = None
         # F28: NV multi-pair keep -> the same pairs requested one at a time
         if kf is None and (cfg["nv"] or cfg["transp"]) and note and note[1] == "assertion" and \
-                small[note[0]]["k"] == "keep" and small[note[0]]["n"] >= 2:
+                small[note[0]]["k"] in ("keep", "keepr") and small[note[0]]["n"] >= 2:
             i = note[0]
             alt = small[:i] + [dict(small[i], n=1) for _ in range(small[i]["n"])] + small[i + 1:]
             if fails(cfg, alt, **kw) is None:
@@ -126,8 +140,20 @@ def run(ctx):
                 kf = "F30"
         return small, note, kf
 
-    def compare(cfg, ops, stream):
-        real, notes = H.run_real(cfg, ops)
+    def schedule_invariant(cfg, ops):
+        """the executed event order does not depend on when the link layer reports the pairs,
+        except for a non-sequential context block of several pairs on multi-comm hardware (the
+        pairs have different destination ids, so all of them may arrive before the first body)"""
+        single = cfg["nv"] or cfg["transp"] or cfg["maxq"] == 1
+        return not any(o["k"] == "ctx" and not o["sequential"] and o["n"] >= 2 and not single for o in ops)
+
+    def compare(cfg, ops, stream, schedule="lazy"):
+        real, notes = H.run_real(cfg, ops, schedule=schedule)
+        res.count("schedule:" + schedule)
+        if schedule != "lazy" and not schedule_invariant(cfg, ops):
+            res.evaluations += 1
+            res.count("schedule:oracle-only (event order depends on the schedule)")
+            return real, notes
         model = H.canon_model(ctx.driver.call({"op": "qm.run", **cfg, "ops": ops})["snaps"])
         res.evaluations += 1
         for o in ops:
@@ -172,8 +198,9 @@ def run(ctx):
                 cfg["nv"] = True  # transpiler with an explicit NV config, or forcing it
         ops = H.random_ops(rng, cfg, rng.randint(1, 14), loops=rng.random() < 0.5,
                            over_budget=rng.random() < 0.12)
-        real, notes = compare(cfg, ops, "qm.random")
-        oracle(cfg, ops, notes)
+        schedule = rng.choice(["lazy", "lazy", "eager", "burst"])
+        real, notes = compare(cfg, ops, "qm.random", schedule)
+        oracle(cfg, ops, notes, schedule=schedule)
         if len(res.samples) < 6 and it % 53 == 0:
             res.samples.append({"cfg": cfg, "ops": ops, "last": real[-1] if real else None})
 
@@ -193,6 +220,7 @@ def run(ctx):
 def replay(ctx, payload):
     from harness import qubits as H
     inp = payload["failure"]["input"]
-    snaps, notes = H.run_real(inp["cfg"], inp["ops"], bell=inp.get("bell", 0))
+    snaps, notes = H.run_real(inp["cfg"], inp["ops"], bell=inp.get("bell", 0),
+                              schedule=inp.get("schedule", "lazy"))
     print(json.dumps({"snapshots": snaps, "oracle": notes}, indent=1))
     return 1 if notes else 0
